@@ -23,6 +23,7 @@ import (
 	"crypto/sha512"
 	"encoding/base64"
 	"fmt"
+	"os"
 	"sort"
 	"strings"
 )
@@ -145,6 +146,9 @@ func (c *concretizer) intOf(t *Term) (int64, bool) {
 	if n, ok := t.IntVal(); ok {
 		return n, true
 	}
+	if v, ok := c.mv[t.String()].(int64); ok {
+		return v, true
+	}
 	if !t.Sym {
 		switch {
 		case t.Op == "str.len" && len(t.Args) == 1:
@@ -213,6 +217,18 @@ func isInputLeaf(t *Term) bool {
 	return op == "cs_get" || op == "form_value" || strings.HasPrefix(op, "val!Get") || strings.HasPrefix(op, "unbox!String")
 }
 
+// splitElem recognises select(str_split(list, sep), idx).
+func splitElem(t *Term) (list, sep, idx *Term, ok bool) {
+	if t.Op != "select" || t.Sym || len(t.Args) != 2 {
+		return
+	}
+	sp := t.Args[0]
+	if !sp.Sym || strings.Trim(sp.Op, "|") != "str_split" || len(sp.Args) != 2 {
+		return
+	}
+	return sp.Args[0], sp.Args[1], t.Args[1], true
+}
+
 func stripIte(t *Term) *Term {
 	for t.Op == "ite" && !t.Sym && len(t.Args) == 3 { // ite(state==0, "", cs_get(..))
 		t = t.Args[2]
@@ -272,10 +288,48 @@ func reconcileCrypto(o *Obligation, mv modelVals, ts []*Term, crypto map[string]
 				continue
 			}
 			in := stripIte(d.Args[0])
+			enc := op[len("b64dec!"):]
+			if list, sep, idx, ok := splitElem(in); ok && isInputLeaf(list) {
+				// an element of a separated list kept in one input (the one-time
+				// passwords of a record): the list gets the model's length, the real
+				// encoding at the model's index and harmless fillers elsewhere
+				sepS, _ := sep.StrVal()
+				n, _ := mv.of(App("str_split_len", SInt, list, sep)).(int64)
+				i, iok := c.intOf(idx)
+				if os.Getenv("GVC_DEBUG_REPLAY") != "" {
+					fmt.Fprintf(os.Stderr, "splitElem: list=%s n=%d idx=%s i=%d ok=%v\n", list, n, idx, i, iok)
+				}
+				if n < 1 || n > 64 || !iok || i < 0 || i >= n {
+					continue
+				}
+				target, _ := mv.of(d).(string)
+				for _, e := range eqs {
+					if e[0].String() == d.String() && isCrypto(e[1]) && !strings.Contains(e[1].String(), d.String()) {
+						if r, ok := c.real(e[1]); ok {
+							target = r
+							break
+						}
+					}
+				}
+				var parts []string
+				for k := int64(0); k < n; k++ {
+					if k == i {
+						parts = append(parts, encode(enc, target))
+					} else {
+						parts = append(parts, encode(enc, fmt.Sprintf("filler-%d", k)))
+					}
+				}
+				val := strings.Join(parts, sepS)
+				c.over[list.String()] = val
+				mv[list.String()] = val
+				if round == 0 {
+					log = append(log, fmt.Sprintf("element %d of %s := real encoding of what the path equates it with", i, list))
+				}
+				continue
+			}
 			if !isInputLeaf(in) {
 				continue
 			}
-			enc := op[len("b64dec!"):]
 			okT := App("b64ok!"+enc, SBool, d.Args[0])
 			if v, has := mv[okT.String()]; has {
 				if b, _ := v.(bool); !b {
